@@ -94,3 +94,25 @@ Proof.
   intros _. exists g, l. repeat split; auto. apply existsb_Neqb; auto.
   intros Hin. apply existsb_streqb in Hin. congruence.
 Qed.
+
+(* ---- the gate is never skipped (Domovoi on): whatever ContractManagement holds for the executing contract — updated,
+   destroyed — a non-safe call from a deployed contract passes exactly when the LOADED manifest allows it ---- *)
+Theorem gate_never_skipped loaded current c m :
+  call_gate true false true loaded current c m = can_call loaded c m /\
+  (call_gate true false true loaded current c m = true <-> may_call loaded c m).
+Proof. unfold call_gate, manifest_for. split; [reflexivity | apply can_call_iff]. Qed.
+
+(* the lookup-gated form (before Domovoi) lets a contract that is no longer in ContractManagement call anything *)
+Definition lookup_gated_statement : Prop :=
+  forall loaded current c m, call_gate false false true loaded current c m = true -> may_call loaded c m.
+
+Theorem lookup_gated_refuted : ~ lookup_gated_statement.
+Proof.
+  intros H. specialize (H [] None (mk_callee 1 []) "b"%string eq_refl).
+  destruct H as [p [[] _]].
+Qed.
+
+(* before Domovoi, with the contract present, the CURRENT manifest decides *)
+Theorem gate_before_domovoi loaded ps c m :
+  call_gate false false true loaded (Some ps) c m = can_call ps c m.
+Proof. reflexivity. Qed.
